@@ -1,6 +1,722 @@
-//! C37 — not built yet.
-use vcommon::Args;
+//! C37 — bus match registrations mirror the live signal subscriptions.
+//!
+//! Space: the FULL tree of valid operation histories of a given depth (no state merging: the
+//! connection's `subscriptions` map is not observable). Every history is executed from scratch on
+//! a real zbus bus connection facing the fake bus, which records AddMatch/RemoveMatch as a
+//! multiset of rule strings. After every operation the world is pumped to quiescence (queued
+//! `remove_match` tasks run and the bus answers them).
+//!
+//! Operations:
+//!   new-stream(R)      `MessageStream::for_match_rule(R, &conn, None)` for
+//!                      R ∈ {SIG = the signal rule a proxy signal stream uses,
+//!                           NOC = the NameOwnerChanged(arg0=x.y.Z) rule proxies use,
+//!                           CALL = a method_call rule (never to be registered; thorough tier)}
+//!   new-proxy-stream   `proxy::Builder` (cache disabled) for well-known x.y.Z + `receive_signal("Sig")`;
+//!                      yields two handles: the proxy (holds NOC once subscribed) and the signal
+//!                      stream (holds SIG and NOC)
+//!   clone(i)           `MessageStream::clone` / `Proxy::clone` of live handle i
+//!   drop(i)            synchronous drop (→ queued removal task)
+//!   async-drop(i)      `AsyncDrop::async_drop` (streams only)
+//!
+//! Oracle (statement only), checked after every operation once the world is quiescent:
+//!   * registered-set-equals-live-rules: {rules with AddMatch−RemoveMatch > 0 at the bus} ==
+//!     {distinct signal rules with ≥ 1 live subscriber in the reference model}
+//!   * no-rule-added-twice: AddMatch for a rule that is already registered
+//!   * no-rule-removed-while-in-use: a successful RemoveMatch for a rule that still has a live
+//!     subscriber
+//! Reference model: a subscriber is every live `MessageStream` value (a clone is a stream too),
+//! every live proxy signal stream (SIG + NOC) and every group of `Proxy` clones with a live
+//! member (NOC). Rules are identified by their parsed content, not by string spelling.
+//! Only the first violating step of a history is reported (later ones can be consequences).
+//! Attribution: the history is re-run with every `clone(stream)` replaced by an independent
+//! `new-stream` of the same rule (what a clone ought to be equivalent to); if that run satisfies
+//! the oracle up to the same step, the violation is attributed to stream cloning.
 
-pub fn main(_args: &Args) -> i32 {
-    vcommon::machinery_failure("C37: check not built yet")
+use std::collections::HashSet;
+
+use serde_json::{json, Value};
+use vcommon::{catch, hash64, Args, Report, Violation};
+use zbus::{
+    message::Type,
+    proxy::{CacheProperties, SignalStream},
+    AsyncDrop, MatchRule, MessageStream, Proxy,
+};
+
+use crate::{
+    fakebus::{self, parse_rule, Bus, BusRule},
+    world::World,
+};
+
+const DEST: &str = "x.y.Z";
+const RULE_NAMES: [&str; 3] = ["SIG", "NOC", "CALL"];
+
+fn rule(r: usize) -> MatchRule<'static> {
+    match r {
+        0 => MatchRule::builder()
+            .msg_type(Type::Signal)
+            .sender(DEST)
+            .unwrap()
+            .path("/p")
+            .unwrap()
+            .interface("x.y.I")
+            .unwrap()
+            .member("Sig")
+            .unwrap()
+            .build(),
+        1 => MatchRule::builder()
+            .msg_type(Type::Signal)
+            .sender("org.freedesktop.DBus")
+            .unwrap()
+            .path("/org/freedesktop/DBus")
+            .unwrap()
+            .interface("org.freedesktop.DBus")
+            .unwrap()
+            .member("NameOwnerChanged")
+            .unwrap()
+            .add_arg(DEST)
+            .unwrap()
+            .build(),
+        _ => MatchRule::builder()
+            .msg_type(Type::MethodCall)
+            .interface("x.y.I")
+            .unwrap()
+            .build(),
+    }
+}
+
+/// The rules as the bus must see them (written by hand, independent of zbus's `Display`).
+fn bus_rule(r: usize) -> BusRule {
+    match r {
+        0 => BusRule {
+            typ: Some("signal".into()),
+            sender: Some(DEST.into()),
+            path: Some("/p".into()),
+            interface: Some("x.y.I".into()),
+            member: Some("Sig".into()),
+            ..Default::default()
+        },
+        1 => BusRule {
+            typ: Some("signal".into()),
+            sender: Some("org.freedesktop.DBus".into()),
+            path: Some("/org/freedesktop/DBus".into()),
+            interface: Some("org.freedesktop.DBus".into()),
+            member: Some("NameOwnerChanged".into()),
+            args: vec![(0, DEST.into())],
+            ..Default::default()
+        },
+        _ => BusRule {
+            typ: Some("method_call".into()),
+            interface: Some("x.y.I".into()),
+            ..Default::default()
+        },
+    }
+}
+
+fn rule_id(s: &str) -> Option<usize> {
+    let p = parse_rule(s).ok()?;
+    (0..3).find(|r| bus_rule(*r) == p)
+}
+
+#[derive(Clone, Copy, PartialEq, Eq, Debug, Hash)]
+enum Op {
+    NewMs(usize),
+    NewProxySig,
+    Clone(usize),
+    Drop(usize),
+    AsyncDrop(usize),
+}
+
+fn label(op: &Op) -> String {
+    match op {
+        Op::NewMs(r) => format!("new-stream({})", RULE_NAMES[*r]),
+        Op::NewProxySig => "new-proxy-stream".into(),
+        Op::Clone(i) => format!("clone(h{i})"),
+        Op::Drop(i) => format!("drop(h{i})"),
+        Op::AsyncDrop(i) => format!("async-drop(h{i})"),
+    }
+}
+
+fn encode(op: &Op) -> Value {
+    match op {
+        Op::NewMs(r) => json!(["new", r]),
+        Op::NewProxySig => json!(["proxy"]),
+        Op::Clone(i) => json!(["clone", i]),
+        Op::Drop(i) => json!(["drop", i]),
+        Op::AsyncDrop(i) => json!(["adrop", i]),
+    }
+}
+
+fn decode(v: &Value) -> Option<Op> {
+    let k = v.get(0)?.as_str()?;
+    let a = v.get(1).and_then(|x| x.as_u64()).unwrap_or(0) as usize;
+    Some(match k {
+        "new" => Op::NewMs(a),
+        "proxy" => Op::NewProxySig,
+        "clone" => Op::Clone(a),
+        "drop" => Op::Drop(a),
+        "adrop" => Op::AsyncDrop(a),
+        _ => return None,
+    })
+}
+
+#[derive(Clone, Copy, PartialEq, Eq, Debug, Hash)]
+enum HK {
+    Ms(usize),
+    Ss,
+    Px(usize), // group
+}
+
+#[derive(Clone, Debug, Hash, PartialEq, Eq)]
+struct MH {
+    kind: HK,
+    alive: bool,
+    cloned: bool,
+}
+
+/// Reference model: who subscribes to what.
+#[derive(Clone, Debug, Default, Hash, PartialEq, Eq)]
+struct Model {
+    hs: Vec<MH>,
+    groups: usize,
+}
+
+impl Model {
+    fn valid(&self, op: &Op) -> bool {
+        match op {
+            Op::NewMs(_) | Op::NewProxySig => true,
+            Op::Clone(i) => self
+                .hs
+                .get(*i)
+                .map(|h| h.alive && !matches!(h.kind, HK::Ss))
+                .unwrap_or(false),
+            Op::Drop(i) => self.hs.get(*i).map(|h| h.alive).unwrap_or(false),
+            Op::AsyncDrop(i) => self
+                .hs
+                .get(*i)
+                .map(|h| h.alive && !matches!(h.kind, HK::Px(_)))
+                .unwrap_or(false),
+        }
+    }
+    fn apply(&mut self, op: &Op) {
+        match op {
+            Op::NewMs(r) => self.hs.push(MH { kind: HK::Ms(*r), alive: true, cloned: false }),
+            Op::NewProxySig => {
+                self.hs.push(MH { kind: HK::Px(self.groups), alive: true, cloned: false });
+                self.hs.push(MH { kind: HK::Ss, alive: true, cloned: false });
+                self.groups += 1;
+            }
+            Op::Clone(i) => {
+                let k = self.hs[*i].kind;
+                self.hs.push(MH { kind: k, alive: true, cloned: true });
+            }
+            Op::Drop(i) | Op::AsyncDrop(i) => self.hs[*i].alive = false,
+        }
+    }
+    /// Live subscribers of signal rule `r`.
+    fn live(&self, r: usize) -> usize {
+        let mut n = 0;
+        let mut groups = HashSet::new();
+        for h in &self.hs {
+            if !h.alive {
+                continue;
+            }
+            match h.kind {
+                HK::Ms(x) if x == r => n += 1,
+                HK::Ss if r == 0 || r == 1 => n += 1,
+                HK::Px(g) if r == 1 => {
+                    if groups.insert(g) {
+                        n += 1
+                    }
+                }
+                _ => {}
+            }
+        }
+        n
+    }
+    fn is_signal_rule(r: usize) -> bool {
+        r != 2
+    }
+}
+
+enum RH {
+    Ms(Option<MessageStream>),
+    Ss(Option<SignalStream<'static>>),
+    Px(Option<Proxy<'static>>),
+}
+
+#[derive(Clone, Debug)]
+struct StepViolation {
+    step: usize,
+    clause: &'static str,
+    detail: String,
+    feats: Vec<(&'static str, String)>,
+}
+
+#[derive(Default)]
+struct HistResult {
+    log: Vec<String>,
+    states: Vec<u64>,
+    violations: Vec<StepViolation>,
+    transitions: u64,
+    machinery: Option<String>,
+    outcomes: Vec<String>,
+    nontrivial: bool,
+}
+
+fn registered(bus: &Bus) -> Vec<(String, usize)> {
+    bus.matches.rules.iter().map(|(k, v)| (k.clone(), *v)).collect()
+}
+
+/// Execute one history. `declone` = replace clones of message streams by independent streams.
+fn run_history(ops: &[Op], declone: bool) -> HistResult {
+    let mut out = HistResult::default();
+    let mut w = World::new();
+    let mut bus = Bus::new();
+    bus.set_owner(DEST, Some(":1.5"));
+    let conn = match fakebus::connect(&mut w, &mut bus) {
+        Ok(c) => c,
+        Err(e) => {
+            out.machinery = Some(e);
+            return out;
+        }
+    };
+    let mut model = Model::default();
+    let mut hs: Vec<RH> = vec![];
+    let mut removed_in_use: HashSet<usize> = HashSet::new();
+
+    for (step, op) in ops.iter().enumerate() {
+        if !model.valid(op) {
+            out.machinery = Some(format!("invalid operation {} at step {step}", label(op)));
+            return out;
+        }
+        let calls0 = bus.calls.len();
+        let dadds0 = bus.double_adds.len();
+        let mut note = String::new();
+        let (h_kind, h_origin) = match op {
+            Op::Clone(i) | Op::Drop(i) | Op::AsyncDrop(i) => (
+                match model.hs[*i].kind {
+                    HK::Ms(_) => "stream",
+                    HK::Ss => "proxy-signal-stream",
+                    HK::Px(_) => "proxy",
+                },
+                if model.hs[*i].cloned { "cloned" } else { "created" },
+            ),
+            _ => ("-", "-"),
+        };
+        let done: Result<bool, String> = catch(|| match op {
+            Op::NewMs(r) => {
+                let c = conn.clone();
+                let rl = rule(*r);
+                match fakebus::run(&mut w, &mut bus, "new-stream", async move {
+                    MessageStream::for_match_rule(rl, &c, None).await
+                }) {
+                    Some(Ok(s)) => {
+                        hs.push(RH::Ms(Some(s)));
+                        true
+                    }
+                    Some(Err(e)) => {
+                        note = format!(" error:{e}");
+                        hs.push(RH::Ms(None));
+                        true
+                    }
+                    None => false,
+                }
+            }
+            Op::NewProxySig => {
+                let c = conn.clone();
+                match fakebus::run(&mut w, &mut bus, "new-proxy-stream", async move {
+                    let p: Proxy<'static> = zbus::proxy::Builder::<Proxy<'static>>::new(&c)
+                        .destination(DEST)?
+                        .path("/p")?
+                        .interface("x.y.I")?
+                        .cache_properties(CacheProperties::No)
+                        .build()
+                        .await?;
+                    let s = p.receive_signal("Sig").await?;
+                    zbus::Result::Ok((p, s))
+                }) {
+                    Some(Ok((p, s))) => {
+                        hs.push(RH::Px(Some(p)));
+                        hs.push(RH::Ss(Some(s)));
+                        true
+                    }
+                    Some(Err(e)) => {
+                        note = format!(" error:{e}");
+                        hs.push(RH::Px(None));
+                        hs.push(RH::Ss(None));
+                        true
+                    }
+                    None => false,
+                }
+            }
+            Op::Clone(i) => {
+                let new = match &hs[*i] {
+                    RH::Ms(Some(s)) => {
+                        if declone {
+                            let c = conn.clone();
+                            let rl = match model.hs[*i].kind {
+                                HK::Ms(r) => rule(r),
+                                _ => unreachable!(),
+                            };
+                            match fakebus::run(&mut w, &mut bus, "new-stream-instead-of-clone", async move {
+                                MessageStream::for_match_rule(rl, &c, None).await
+                            }) {
+                                Some(Ok(s)) => RH::Ms(Some(s)),
+                                _ => RH::Ms(None),
+                            }
+                        } else {
+                            RH::Ms(Some(s.clone()))
+                        }
+                    }
+                    RH::Px(Some(p)) => RH::Px(Some(p.clone())),
+                    RH::Ms(None) => RH::Ms(None),
+                    RH::Px(None) => RH::Px(None),
+                    RH::Ss(_) => unreachable!(),
+                };
+                hs.push(new);
+                fakebus::pump(&mut w, &mut bus);
+                true
+            }
+            Op::Drop(i) => {
+                match &mut hs[*i] {
+                    RH::Ms(s) => drop(s.take()),
+                    RH::Ss(s) => drop(s.take()),
+                    RH::Px(p) => drop(p.take()),
+                }
+                fakebus::pump(&mut w, &mut bus);
+                true
+            }
+            Op::AsyncDrop(i) => match &mut hs[*i] {
+                RH::Ms(s) => match s.take() {
+                    Some(s) => fakebus::run(&mut w, &mut bus, "async-drop", async move { s.async_drop().await }).is_some(),
+                    None => true,
+                },
+                RH::Ss(s) => match s.take() {
+                    Some(s) => fakebus::run(&mut w, &mut bus, "async-drop", async move { s.async_drop().await }).is_some(),
+                    None => true,
+                },
+                RH::Px(_) => unreachable!(),
+            },
+        });
+        match done {
+            Err(p) => {
+                out.machinery = Some(format!("panic in {}: {p} at {}", label(op), vcommon::last_panic_location()));
+                return out;
+            }
+            Ok(false) => {
+                out.machinery = Some(format!(
+                    "{} did not complete although the world is quiescent and the bus has answered everything (history {:?})",
+                    label(op),
+                    ops.iter().map(label).collect::<Vec<_>>()
+                ));
+                return out;
+            }
+            Ok(true) => {}
+        }
+        if !note.is_empty() {
+            out.machinery = Some(format!("{} failed:{note}", label(op)));
+            return out;
+        }
+        model.apply(op);
+        out.transitions += 1;
+
+        // ---- observations of this step ----
+        let traffic: Vec<String> = bus.calls[calls0..]
+            .iter()
+            .filter(|c| c.member == "AddMatch" || c.member == "RemoveMatch")
+            .map(|c| {
+                format!(
+                    "{}({}){}",
+                    c.member,
+                    c.args.first().and_then(|s| rule_id(s)).map(|r| RULE_NAMES[r]).unwrap_or("?"),
+                    if c.answer == "ok" { "" } else { "!not-registered" }
+                )
+            })
+            .collect();
+        let reg = registered(&bus);
+        let reg_named: Vec<String> = reg
+            .iter()
+            .map(|(s, n)| format!("{}x{n}", rule_id(s).map(|r| RULE_NAMES[r]).unwrap_or("?")))
+            .collect();
+        out.log.push(format!(
+            "{} -> bus saw [{}]; registered {{{}}}; live {{SIG:{},NOC:{}}}",
+            label(op),
+            traffic.join(","),
+            reg_named.join(","),
+            model.live(0),
+            model.live(1)
+        ));
+        for t in &traffic {
+            out.outcomes.push(t.clone());
+        }
+        if traffic.is_empty() {
+            out.outcomes.push("no-bus-traffic".into());
+        }
+        if model.live(0) + model.live(1) >= 2 {
+            out.nontrivial = true;
+        }
+
+        // ---- oracle ----
+        let op_kind = match op {
+            Op::NewMs(_) => "new-stream",
+            Op::NewProxySig => "new-proxy-stream",
+            Op::Clone(_) => "clone",
+            Op::Drop(_) => "drop",
+            Op::AsyncDrop(_) => "async-drop",
+        };
+        let mut push = |clause: &'static str, kind: &str, r: Option<usize>, detail: String| {
+            out.violations.push(StepViolation {
+                step,
+                clause,
+                detail,
+                feats: vec![
+                    ("kind", kind.to_string()),
+                    ("rule", r.map(|r| RULE_NAMES[r]).unwrap_or("unknown").to_string()),
+                    ("op", op_kind.to_string()),
+                    ("handle", h_kind.to_string()),
+                    ("handle_origin", h_origin.to_string()),
+                ],
+            })
+        };
+        for (s, n) in &bus.double_adds[dadds0..] {
+            push(
+                "no-rule-added-twice",
+                "added-twice",
+                rule_id(s),
+                format!("{}: AddMatch for `{s}` while it was already registered (now {n} times)", label(op)),
+            );
+        }
+        for c in &bus.calls[calls0..] {
+            if c.member == "RemoveMatch" && c.answer == "ok" {
+                let r = c.args.first().and_then(|s| rule_id(s));
+                if let Some(r) = r {
+                    if Model::is_signal_rule(r) && model.live(r) >= 1 {
+                        removed_in_use.insert(r);
+                        push(
+                            "no-rule-removed-while-in-use",
+                            "removed-in-use",
+                            Some(r),
+                            format!(
+                                "{}: RemoveMatch({}) reached the bus although {} live subscriber(s) of that rule remain",
+                                label(op),
+                                RULE_NAMES[r],
+                                model.live(r)
+                            ),
+                        );
+                    }
+                }
+            }
+        }
+        for r in 0..3 {
+            let n_reg: usize = reg.iter().filter(|(s, _)| rule_id(s) == Some(r)).map(|(_, n)| *n).sum();
+            let want = Model::is_signal_rule(r) && model.live(r) >= 1;
+            if want && n_reg == 0 && !removed_in_use.contains(&r) {
+                push(
+                    "registered-set-equals-live-rules",
+                    "missing",
+                    Some(r),
+                    format!("after {}: rule {} has {} live subscriber(s) but is not registered with the bus", label(op), RULE_NAMES[r], model.live(r)),
+                );
+            }
+            if !want && n_reg > 0 {
+                push(
+                    "registered-set-equals-live-rules",
+                    "stale",
+                    Some(r),
+                    format!("after {}: rule {} is registered with the bus ({n_reg}x) but has no live signal subscriber", label(op), RULE_NAMES[r]),
+                );
+            }
+        }
+        for (s, _) in &reg {
+            if rule_id(s).is_none() {
+                push(
+                    "registered-set-equals-live-rules",
+                    "stale",
+                    None,
+                    format!("after {}: unknown rule `{s}` is registered with the bus", label(op)),
+                );
+            }
+        }
+        out.states.push(hash64(&(&model, &reg, out.log.last())));
+    }
+    if !bus.errors.is_empty() {
+        out.machinery = Some(format!("fake bus: {:?}", bus.errors));
+    }
+    if w.hit_horizon {
+        out.machinery = Some("pump did not reach quiescence".into());
+    }
+    drop(hs);
+    drop(conn);
+    out
+}
+
+fn enumerate(depth: usize, n_rules: usize) -> Vec<Vec<Op>> {
+    fn rec(model: &Model, cur: &mut Vec<Op>, depth: usize, n_rules: usize, out: &mut Vec<Vec<Op>>) {
+        if cur.len() == depth {
+            out.push(cur.clone());
+            return;
+        }
+        let mut ops: Vec<Op> = (0..n_rules).map(Op::NewMs).collect();
+        ops.push(Op::NewProxySig);
+        for i in 0..model.hs.len() {
+            ops.push(Op::Clone(i));
+            ops.push(Op::Drop(i));
+            ops.push(Op::AsyncDrop(i));
+        }
+        for op in ops {
+            if model.valid(&op) {
+                let mut m = model.clone();
+                m.apply(&op);
+                cur.push(op);
+                rec(&m, cur, depth, n_rules, out);
+                cur.pop();
+            }
+        }
+    }
+    let mut out = vec![];
+    rec(&Model::default(), &mut vec![], depth, n_rules, &mut out);
+    out
+}
+
+fn to_violation(ops: &[Op], sv: &StepViolation, log: &[String], attributed: &str) -> Violation {
+    let labels: Vec<String> = ops.iter().map(label).collect();
+    let mut v = Violation::new(
+        sv.clause,
+        format!(
+            "history [{}] step {}: {}{}",
+            labels.join("; "),
+            sv.step,
+            sv.detail,
+            if attributed == "message-stream-clone" {
+                " — with every stream clone replaced by an independently created stream of the same rule the history satisfies the oracle, so the clone is not counted as a subscriber"
+            } else {
+                ""
+            }
+        ),
+        json!({"ops": ops.iter().map(encode).collect::<Vec<_>>(), "labels": labels, "log": log}),
+    );
+    for (k, val) in &sv.feats {
+        v = v.feat(k, val);
+    }
+    v.feat("attributed_to", attributed)
+}
+
+pub fn main(args: &Args) -> i32 {
+    if let Some(p) = &args.replay {
+        return replay(p);
+    }
+    let report = Report::new("C37", args.tier, args.seed, "model_checking");
+    // (depth, number of MessageStream rules)
+    let spaces: Vec<(usize, usize)> = args.tier.pick(vec![(4, 3), (5, 2)], vec![(5, 3), (6, 2)]);
+    let totals = fakebus::TreeTotals::default();
+    let mut spaces_json = vec![];
+    for (depth, n_rules) in &spaces {
+        let hists = enumerate(*depth, *n_rules);
+        let n = hists.len();
+        let t0 = std::time::Instant::now();
+        fakebus::par_histories(&report, &totals, n, 64, |idx, acc| {
+            let ops = &hists[idx];
+            let res = run_history(ops, false);
+            if let Some(m) = &res.machinery {
+                vcommon::machinery_failure(&format!("C37: {m}"));
+            }
+            acc.evals += 1;
+            acc.transitions += res.transitions;
+            for o in &res.outcomes {
+                acc.outcome(o);
+            }
+            let lh = hash64(&res.log);
+            acc.logs.insert(lh);
+            if res.nontrivial {
+                acc.nontrivial.push(lh);
+            }
+            acc.states.extend(res.states.iter().cloned());
+            if idx % (n / 6).max(1) == 0 {
+                report.sample(json!({"history": ops.iter().map(label).collect::<Vec<_>>(), "log": res.log}));
+            }
+            if let Some(sv) = res.violations.first() {
+                let has_clone = ops.iter().enumerate().any(|(j, o)| match o {
+                    Op::Clone(i) => {
+                        // is handle i a message stream at that point?
+                        let mut m = Model::default();
+                        for p in &ops[..j] {
+                            m.apply(p);
+                        }
+                        matches!(m.hs[*i].kind, HK::Ms(_))
+                    }
+                    _ => false,
+                });
+                let attributed = if has_clone {
+                    let d = run_history(ops, true);
+                    if d.machinery.is_none() && !d.violations.iter().any(|x| x.step <= sv.step) {
+                        "message-stream-clone"
+                    } else {
+                        "history"
+                    }
+                } else {
+                    "history"
+                };
+                report.violation(to_violation(ops, sv, &res.log, attributed));
+            }
+        });
+        spaces_json.push(json!({"depth": depth, "stream_rules": n_rules, "histories": n, "wall_s": (t0.elapsed().as_secs_f64()*1000.0).round()/1000.0}));
+    }
+    if args.tier == vcommon::Tier::Thorough {
+        match fakebus::audit_against_daemon(2) {
+            Ok(a) => report.set("fake_bus_audit", a),
+            Err(fakebus::AuditError::Unavailable(e)) => {
+                report.note(format!("fake-bus audit against dbus-daemon skipped: {e}"))
+            }
+            Err(fakebus::AuditError::Disagreement(e)) => {
+                vcommon::machinery_failure(&format!("C37: fake bus disagrees with dbus-daemon: {e}"))
+            }
+        }
+    }
+    fakebus::finish_tree(
+        &report,
+        &totals,
+        "distinct (reference subscriber model, bus registration multiset, observation) triples reached; informational, no merging is done",
+    );
+    report.set("spaces", json!(spaces_json));
+    report.assume("the fake bus records AddMatch/RemoveMatch as a multiset like dbus-daemon does (audited in the thorough tier)");
+    report.assume("each operation is pumped to quiescence on the default schedule; 'pending removals processed' = no task enabled and nothing left for the bus to answer");
+    report.assume("a clone of a MessageStream counts as a live subscriber of its rule (it is a stream that can be polled)");
+    report.finish(
+        "all valid operation histories of exactly the stated depth (every prefix judged step by step); non-trivial = at some step two or more live subscribers exist",
+        true,
+    )
+}
+
+fn replay(path: &str) -> i32 {
+    let art = vcommon::load_replay(path);
+    let ops: Vec<Op> = art["replay"]["ops"]
+        .as_array()
+        .map(|a| a.iter().filter_map(decode).collect())
+        .unwrap_or_default();
+    println!("C37 replay, history:");
+    for o in &ops {
+        println!("  {}", label(o));
+    }
+    let res = run_history(&ops, false);
+    println!("observations:");
+    for l in &res.log {
+        println!("  {l}");
+    }
+    if let Some(m) = &res.machinery {
+        println!("machinery problem: {m}");
+        return 2;
+    }
+    if res.violations.is_empty() {
+        println!("no clause violated");
+        return 0;
+    }
+    for v in &res.violations {
+        println!("violated at step {}: {} — {}", v.step, v.clause, v.detail);
+    }
+    let d = run_history(&ops, true);
+    println!(
+        "same history with stream clones replaced by independent streams: {} violation(s)",
+        d.violations.len()
+    );
+    1
 }
